@@ -306,8 +306,10 @@ STMT_KINDS = ("unsupported", "visit")
 
 def observe_dispatch(fnode):
     """Run the real Analysis.func on a deep copy of fnode (as is: callers apply ast_mod first when
-    they want the default-mode tree).  Returns (visits, info): visits = [[path, unsupported?]] for
-    every compute_relation call on a node of the tree, in call order; info: exc, early_exit, warnings."""
+    they want the default-mode tree).  Returns (visits, info): visits = [[path, unsupported?, flow?, rules]]
+    for every compute_relation call on a node of the tree, in call order (flow? = a flow rule --
+    binary_op / constant / id -- ran for it, directly or through a rewriting; rules = the Analysis
+    methods that ran); info: exc, early_exit, warnings."""
     from copy import deepcopy
     from pymwp import Analysis, DeltaGraph
     node = deepcopy(fnode)
@@ -317,10 +319,25 @@ def observe_dispatch(fnode):
     orig_cr, orig_un = Analysis.compute_relation, Analysis._unsupported
     orig_empty = DeltaGraph.is_empty
 
+    RULES = ("binary_op", "constant", "id", "unary_asgn", "unary_op", "if_stmt", "while_loop", "for_loop", "compound")
+    FLOW = ("binary_op", "constant", "id")
+    orig_rules = {r: getattr(Analysis, r) for r in RULES}
+
+    def wrap(name):
+        fn = orig_rules[name]
+
+        def w(*a, **k):
+            if stack:
+                visits[stack[-1]][3].append(name)
+                if name in FLOW:
+                    visits[stack[-1]][2] = True
+            return fn(*a, **k)
+        return w
+
     def cr(index, n, dg):
         p = idx.get(id(n))
         if p is not None:
-            visits.append([p, False])
+            visits.append([p, False, False, []])
             stack.append(len(visits) - 1)
         try:
             return orig_cr(index, n, dg)
@@ -332,7 +349,7 @@ def observe_dispatch(fnode):
         if stack:
             visits[stack[-1]][1] = True
         else:
-            visits.append([None, True])
+            visits.append([None, True, False, []])
         return orig_un(command)
 
     def is_empty(self):
@@ -342,6 +359,8 @@ def observe_dispatch(fnode):
         return v
     Analysis.compute_relation = staticmethod(cr)
     Analysis._unsupported = staticmethod(un)
+    for r in RULES:
+        setattr(Analysis, r, staticmethod(wrap(r)))
     DeltaGraph.is_empty = property(is_empty)
     try:
         with CaptureWarnings() as cw:
@@ -353,6 +372,8 @@ def observe_dispatch(fnode):
     finally:
         Analysis.compute_relation = staticmethod(orig_cr)
         Analysis._unsupported = staticmethod(orig_un)
+        for r in RULES:
+            setattr(Analysis, r, staticmethod(orig_rules[r]))
         DeltaGraph.is_empty = orig_empty
     return visits, info
 
@@ -368,8 +389,8 @@ COQ_HEADER = ("From Coq Require Import String List Bool Arith.\n"
               "Definition opt_eqb {A} (f : A -> A -> bool) (a b : option A) : bool := match a, b with Some x, Some y => f x y | None, None => true | _, _ => false end.\n"
               "Fixpoint bad {A} (chk : A -> bool) (n : nat) (l : list A) : list nat := match l with [] => [] | x :: t => if chk x then bad chk (S n) t else n :: bad chk (S n) t end.\n"
               "Definition stmt_kind (k : ekind) : bool := match k with KUnsupported | KSkip | KNoop | KFlow | KEnter | KForSkip | KRaise => true | _ => false end.\n"
-              "Definition visits (l : list event) : list (path * bool) := flat_map (fun e => let 'Ev k p := e in if stmt_kind k then [(p, match k with KUnsupported => true | _ => false end)] else []) l.\n"
-              "Fixpoint visits_eqb (a b : list (path * bool)) : bool := match a, b with [] , [] => true | (p, u) :: a', (q, v) :: b' => path_eqb p q && Bool.eqb u v && visits_eqb a' b' | _, _ => false end.\n"
+              "Definition visits (l : list event) : list (path * bool * bool) := flat_map (fun e => let 'Ev k p := e in if stmt_kind k then [(p, match k with KUnsupported => true | _ => false end, match k with KFlow => true | _ => false end)] else []) l.\n"
+              "Fixpoint visits_eqb (a b : list (path * bool * bool)) : bool := match a, b with [] , [] => true | (p, u, f) :: a', (q, v, g) :: b' => path_eqb p q && Bool.eqb u v && Bool.eqb f g && visits_eqb a' b' | _, _ => false end.\n"
               "Definition m_cov (t : node) : option (list path) := match coverage t with Ok l => Some (map fst l) | Err _ => None end.\n"
               "Definition m_mod (t : node) : option node := match ast_mod t with Ok x => Some x | Err _ => None end.\n")
 
@@ -382,7 +403,7 @@ cq_strs = D.cq_strs
 
 
 def cq_visits(vs):
-    return "[" + "; ".join(f"({D.cq_path(p)}, {'true' if u else 'false'})" for p, u in vs) + "]"
+    return "[" + "; ".join(f"({D.cq_path(v[0])}, {'true' if v[1] else 'false'}, {'true' if v[2] else 'false'})" for v in vs) + "]"
 
 
 def walker_case(tree, obs):
@@ -419,7 +440,7 @@ def walker_file(items):
 def dispatch_file(items):
     """items: [(tree, visits)]"""
     def build():
-        t = ("Definition cases : list (node * list (path * bool)) :=\n [" +
+        t = ("Definition cases : list (node * list (path * bool * bool)) :=\n [" +
              ";\n ".join("(" + D.cq_tree(tr) + ",\n  " + cq_visits(vs) + ")" for tr, vs in items) + "].\n")
         t += "Eval vm_compute in bad (fun c => let '(t, ev) := c in visits_eqb (visits (func_events t)) ev) 0 cases.\n"
         return t
